@@ -445,8 +445,13 @@ async fn run_case<B: Backend>(b: &B, prog: Arc<Program>, ids: &[NodeId], history
                 // later edit its (and its dependants') bookkeeping is stale
                 let cl = crate::eng::closure(&prog, &[n]);
                 let tainted = cl.iter().any(|d| ever_cyclic.contains(d));
+                // ... but not this shape: a query that is on no cycle now and still
+                // returns its own cycle default. That was the defect repaired by
+                // 07a4857; the residue recorded as C06-F1 never shows it (0 of the
+                // residue cases of the quick and thorough tiers), so it is reported.
+                let kept_default = !cyc.contains(&n) && v == default_of(n);
                 out.violations.push((
-                    if tainted { "stale-after-earlier-cycle-membership" } else if cyc.iter().any(|c| c.kind != Kind::N) { "cycle-through-firewall-or-projection" } else if cyc.contains(&n) { "cycle-member-not-default" } else if cyc.is_empty() { "acyclic-value-wrong" } else { "value-outside-cycle-wrong" }.into(),
+                    if kept_default { "former-cycle-member-keeps-its-default" } else if tainted { "stale-after-earlier-cycle-membership" } else if cyc.iter().any(|c| c.kind != Kind::N) { "cycle-through-firewall-or-projection" } else if cyc.contains(&n) { "cycle-member-not-default" } else if cyc.is_empty() { "acyclic-value-wrong" } else { "value-outside-cycle-wrong" }.into(),
                     Json::obj().set("epoch", ei).set("node", format!("{n:?}")).set("got", v).set("expected", stat[&n]).set("cyclic_nodes", format!("{cyc:?}")).set("mode", format!("{mode:?}")),
                 ));
             }
